@@ -3,7 +3,7 @@
    proved over a table regenerated from the source; faithfulness of the heavy operations is decided
    by the correspondence run. *)
 From Coq Require Import List String ZArith Bool.
-From AV Require Import Model.VTypes Model.Store Model.Ffi Generated.Ffi Proofs.C17Proofs.
+From AV Require Import Model.VTypes Model.Store Model.Encode Model.Ffi Generated.Ffi Proofs.C17Proofs.
 Import ListNotations.
 
 Theorem C17_table_checked : all_outs_checked gen_ffi_functions = true.
@@ -26,6 +26,26 @@ Proof. exact c17_load_list_all. Qed.
 Theorem C17_load_list_wrong_type : forall m hs ty h o, In h hs -> lookup m h = Some o -> oty o <> ty -> load_list m hs ty = None.
 Proof. exact c17_load_list_wrong_type. Qed.
 
+(* list arguments. Issuance: names, raw values and OPTIONAL encoded values are index-aligned; entry i carries
+   the i-th encoded value when one is given and the canonical encoding of the i-th raw value otherwise -- a null
+   or missing entry never shifts a later one (the rule the correspondence evaluates on every issuance case) *)
+Theorem C17_enc_values_aligned : forall names raws encs i n r, List.length names = List.length raws ->
+  nth_error names i = Some n -> nth_error raws i = Some r ->
+  nth_error (enc_values names raws encs) i = Some (n, (r, match nth_error encs i with Some (Some e) => e | _ => encode r end)).
+Proof. exact enc_values_nth. Qed.
+(* registry indices cross as i32 and are read `as u32`: a non-negative index is itself, a negative one lands
+   at or above 2^31 and so never names an entry of a registry *)
+Theorem C17_index_cast : forall i,
+  ((0 <= i < 2147483648)%Z -> index_cast i = i) /\ ((-2147483648 <= i < 0)%Z -> (2147483648 <= index_cast i < 4294967296)%Z).
+Proof. exact (fun i => conj (index_cast_id i) (index_cast_negative i)). Qed.
+(* interval overrides: every record of the list is kept, grouped by registry; only a later record for the same
+   (registry, requested bound) replaces an earlier one *)
+Theorem C17_overrides_kept : forall l rid req rid' req' o,
+  ovr_find (l ++ [(rid, req, o)]) rid req = Some o /\
+  ((rid', req') <> (rid, req) -> ovr_find (l ++ [(rid', req', o)]) rid req = ovr_find l rid req) /\
+  (forall o', ovr_find l rid req = Some o' -> In (rid, req, o') l).
+Proof. exact (fun l rid req rid' req' o => conj (ovr_find_last l rid req o) (conj (ovr_find_other l rid req rid' req' o) (fun o' => ovr_find_in l rid req o'))). Qed.
+
 Print Assumptions C17_table_checked.
 Print Assumptions C17_table_wrapped.
 Print Assumptions C17_malformed_rejected.
@@ -33,3 +53,6 @@ Print Assumptions C17_timestamp_faithful.
 Print Assumptions C17_opt_load_stale.
 Print Assumptions C17_load_list_all.
 Print Assumptions C17_load_list_wrong_type.
+Print Assumptions C17_enc_values_aligned.
+Print Assumptions C17_index_cast.
+Print Assumptions C17_overrides_kept.
